@@ -42,7 +42,7 @@ LOG5 = ("NOT", "AND", "OR", "IMPLIES", "EQUIVALENCE")
 
 
 def plan(tier, seed):
-    return [{"shard": i, "nshards": NSHARDS, "n_docs": 30 if tier == "quick" else 400,
+    return [{"shard": i, "nshards": NSHARDS, "n_docs": 30 if tier == "quick" else 2500,
              "corpus_max": 1000 if tier == "quick" else 10 ** 9} for i in range(NSHARDS)]
 
 
